@@ -15,8 +15,8 @@ META = {
             "-3..4 (some with holes) from a template grammar (expression depth <= 2, connective depth <= 2) and prints each with "
             "its solutions in lexicographic order, the truth value of every constraint on every assignment, and per-variable "
             "projections. Each system is replayed against library(clpz): label/1 after posting domains then constraints and after "
-            "posting constraints then domains (exact answer sequence), labeling/2 with one of the 30 selection/order/branching "
-            "combinations (same multiset), labeling/2 with min/max(Expr) (same multiset, objective monotone), every constraint "
+            "posting the constraints on wide domains (-60..60) that are narrowed afterwards (exact answer sequence), labeling/2 "
+            "with one of the 30 selection/order/branching combinations (same multiset), labeling/2 with min/max(Expr) (same multiset, objective monotone), every constraint "
             "posted on every ground instance (succeeds iff it holds), and propagation only (fd_dom/fd_inf/fd_sup keep every "
             "value that occurs in a solution; posting fails only if there is no solution). Sampled bounded conformance, not proof.",
     "note": "Trusted: TLC, the functional-notation renderer, findall/3, member/2. Partial operations: a constraint with a zero "
@@ -114,14 +114,18 @@ def queries(v):
     """list of (kind, query text)"""
     vs, doms, cons = vs_text(v), doms_text(v), cons_text(v)
     qs = [("label", wrap("Vs = %s, findall(Vs, (%s, %s, label(Vs)), L)" % (vs, doms, cons))),
-          ("label_cons_first", wrap("Vs = %s, findall(Vs, (%s, %s, label(Vs)), L)" % (vs, cons, doms))),
+          # constraints posted while the domains are still wide (propagators start from other bounds), then narrowed.
+          # (Wide but finite: the property quantifies over bounded domains; over unbounded domains posting e.g.
+          # X #>= 3^X does not return - each propagation step exponentiates the previous bound.)
+          ("label_wide_first", wrap("Vs = %s, findall(Vs, (ins(Vs,'..'((-60),60)), %s, %s, label(Vs)), L)" % (vs, cons, doms))),
           ("labeling", wrap("Vs = %s, findall(Vs, (%s, %s, labeling([%s], Vs)), L)" % (vs, doms, cons, ",".join(v["opts"]))))]
     if v["objdef"]:
         qs.append(("optim", wrap("Vs = %s, findall(Vs, (%s, %s, labeling([%s(%s)], Vs)), L)" % (
             vs, doms, cons, v["obj"]["dir"], etext(v["obj"]["e"])))))
     members = ", ".join("member(%s,[%s])" % (vname(i + 1), ",".join(lit(x) for x in d)) for i, d in enumerate(v["dom"]))
     for j, c in enumerate(v["sys"]):
-        qs.append(("ground%d" % j, wrap("Vs = %s, findall(Vs, (%s, %s), L)" % (vs, members, ctext(c)))))
+        qs.append(("ground%d" % j, wrap("Vs = %s, findall(r(Vs,R), (%s, catch((%s -> R = t ; R = f), error(Er,_), R = e(Er))), L)" % (
+            vs, members, ctext(c)))))
     probes = ", ".join("fd_dom(%s,D%d), fd_inf(%s,I%d), fd_sup(%s,S%d)" % (vname(i), i, vname(i), i, vname(i), i)
                        for i in range(1, v["nv"] + 1))
     ps = ",".join("p(D%d,I%d,S%d)" % (i, i, i) for i in range(1, v["nv"] + 1))
@@ -273,9 +277,13 @@ def answer(out):
 def judge_case(v, kind, out):
     """returns None if the observation agrees with the specification, else a short description"""
     b, why = answer(out)
-    if b is None:
-        return why
     sols = [tuple(s) for s in v["sols"]]
+    if b is None:
+        if (why.startswith("error: 'domain_error'('clpz_reifiable_expression'") and "bvar" in v["kinds"] and not sols
+                and not kind.startswith("ground")):
+            # posting met an integer other than 0/1 in a Boolean position: error in place of failure (see Clpz.tla, BoolOK)
+            return None
+        return why
     if kind == "propagate":
         ls = pylist(b["L"])
         if ls is None:
@@ -301,18 +309,31 @@ def judge_case(v, kind, out):
                 if ds and (lo[1] != min(ds) or hi[1] != max(ds)):
                     return "X%d: fd_inf/fd_sup %s..%s disagree with fd_dom %s" % (i + 1, terms.text(lo), terms.text(hi), terms.text(d))
         return None
-    got = tuples_of(b["L"])
-    if got is None:
-        return "malformed answer"
     if kind.startswith("ground"):
         j = int(kind[6:])
         asg = assignments(v)
-        exp = [a for a, m in zip(asg, v["masks"][j]) if m == 1]
-        if got != exp:
-            wrong = sorted(set(got) ^ set(exp))
-            return "ground instances disagree on %s%s" % (wrong[:4], " (duplicates)" if len(set(got)) != len(got) else "")
+        ls = pylist(b["L"])
+        if ls is None or len(ls) != len(asg):
+            return "malformed answer (%s entries for %d ground instances)" % (None if ls is None else len(ls), len(asg))
+        for a, m, bm, entry in zip(asg, v["masks"][j], v["bmasks"][j], ls):
+            if entry[0] != 'c' or entry[1] != 'r' or tuples_of(terms.mk_list([entry[2][0]])) != [a]:
+                return "malformed answer"
+            r = entry[2][1]
+            if r == ('a', 't'):
+                ok = m == 1
+            elif r == ('a', 'f'):
+                ok = m == 0
+            else:
+                # an integer other than 0/1 in a Boolean position: domain error accepted in place of failure
+                ok = (bm == 0 and r[0] == 'c' and r[1] == 'e' and r[2][0][0] == 'c' and r[2][0][1] == 'domain_error'
+                      and r[2][0][2][0] == ('a', 'clpz_reifiable_expression'))
+            if not ok:
+                return "ground instance %s: expected %s got %s" % (list(a), "true" if m == 1 else "false", terms.text(r))
         return None
-    if kind in ("label", "label_cons_first"):
+    got = tuples_of(b["L"])
+    if got is None:
+        return "malformed answer"
+    if kind in ("label", "label_wide_first"):
         if got != sols:
             if sorted(got) == sols:
                 return "order not lexicographic"
@@ -398,6 +419,8 @@ def run(tier):
                 k = "ground" if kind.startswith("ground") else kind
                 what = ctext(v["sys"][int(kind[6:])]) if k == "ground" else "%s ; %s" % (doms_text(v), cons_text(v))
                 extra = " opts=%s" % ",".join(v["opts"]) if k == "labeling" else ""
+                if "bvar" in v["kinds"]:
+                    extra += " bvar"
                 rep.violation("%s%s %s :: %s" % (k, extra, what, bad),
                               {"vector": v, "kind": kind, "query": step["q"], "why": bad})
     for v in vecs[:: max(1, len(vecs) // 5)]:
